@@ -210,6 +210,28 @@ def run_toktrie_groups(prop, tag, want, outcome, with_svob=False, extra_specs=No
         ov.cleanup()
 
 
+def run_svob_only(prop, tag, names, outcome, jobs=8, harness_timeout_s=600):
+    """the SimpleVob harnesses alone (no trie tables): used by properties whose mask bits are set through allow_range"""
+    from . import toktrie_props as tp
+    import os
+    from .common import VERIF
+    ov = e1.Overlay(tag)
+    try:
+        ov.inject("toktrie/src/svob.rs", os.path.join(VERIF, "kani/toktrie/svob_h.rs"), "verif_kani")
+        specs = [dict(name=tp.SVOB_MOD + n, expect="pass", family="K16.1") for n in names]
+        specs.append(dict(name=tp.SVOB_MOD + "k16_1_witness_must_fail", expect="fail", family="K16.1"))
+        res, logp, wall, build_failed = e1.run_kani(ov, "toktrie", [s["name"] for s in specs], jobs=jobs, harness_timeout_s=harness_timeout_s, logname=tag)
+        if build_failed:
+            import subprocess
+            tail = subprocess.run("grep -v '^warning' %s | grep -A8 '^error' | head -60" % logp, shell=True, capture_output=True, text=True).stdout
+            outcome.inconclusive.append("kani build failed (harness no longer compiles against /repo?):\n" + tail)
+        else:
+            judge(prop, ov, "toktrie", specs, res, outcome)
+        return dict(kani_wall_s=round(wall, 1)), specs
+    finally:
+        ov.cleanup()
+
+
 def tier_name():
     from .common import tier
     return tier()
